@@ -55,6 +55,28 @@ def api_passthrough_rule(ctx, P):
             direct = any(outp in [f.canon(a, subst=False) for a in f.args(c)] for c in calls)
             others = [s_ for s_ in paths.stores(f) if s_["path"] == "*%s" % outp]
             ctx.check(r, direct and not others, "%s:score-out" % name, f.where(calls[0]), "%s does not pass its score out-parameter to the search's `%s` function (or writes it from elsewhere)" % (name, slot))
+    return r
+
+
+def fresh_string_rule(ctx, P, r=None):
+    """the search's own hypothesis function: the string it keeps in the search is only a buffer - whatever it
+    returns from that field was stored there in this very call (built by the backtrace of the exit just
+    selected, or reset), never left over from an earlier call (a partial result, the previous state of `final`)"""
+    r = r or ctx.rule("PROV.S8-no-stale-result", "", floor=4)
+    f = P.fn("fsg_search_hyp", U)
+    ctx.touch(f)
+    st = set(s_["node"] for s_ in paths.stores(f) if s_["field"] == "hyp_str")
+    n = 0
+    for rt in f.find("Return"):
+        if not f.ch(rt) or "hyp_str" not in f.canon(f.ch(rt)[0], subst=False):
+            continue
+        n += 1
+        ctx.check(r, paths.always_before(f, rt, lambda e: e in st), "fsg_search_hyp:fresh-string@%d" % n, f.where(rt), "fsg_search_hyp returns the string kept in the search on a path that did not store it in this call: a string built by an earlier call (a partial result, before the utterance was ended) is handed out with the score and segmentation of the present exit")
+    if n == 0:
+        raise AnalysisIncomplete("fsg_search_hyp no longer returns the kept string")
+    # the exit is selected before anything is returned from the history
+    fe = [c for c in f.calls("fsg_search_find_exit")]
+    ctx.check(r, len(fe) == 1 and all(paths.always_before(f, rt, lambda e: e == fe[0]) for rt in f.find("Return") if f.ch(rt) and not paths._is_zero(f, f.ch(rt)[0])), "fsg_search_hyp:exit-first", f.where(f.root), "fsg_search_hyp can return a hypothesis without having selected the exit in this call (the final-state constraint is applied by the selection)")
 
 
 def score_of_exit_rule(ctx, P):
@@ -81,7 +103,8 @@ def score_of_exit_rule(ctx, P):
 
 def run(ctx):
     P = ctx.P
-    api_passthrough_rule(ctx, P)
+    r8 = api_passthrough_rule(ctx, P)
+    fresh_string_rule(ctx, P, r8)
     fns = {f.name: f for f in P.functions(U) if f.file.endswith(U)}
     for n in ("fsg_seg_bp2itor", "fsg_search_hyp", "fsg_search_seg_iter", "fsg_seg_next"):
         if n not in fns:
@@ -278,6 +301,25 @@ def run(ctx):
     ctx.check(s6, ok, key(f, "fill-from-back"), f.where(f.root), "segment list is not filled from index n_hist-1 downwards, one slot per back-trace step")
     nh = [s for s in paths.field_stores(f, "fsg_seg_s", "n_hist")]
     ctx.check(s6, sorted(s["op"] for s in nh) == ["++", "="], key(f, "count"), f.where(f.root), "n_hist is not counted once per back-trace step from 0")
+    # the counting walk follows the predecessors down to the first entry: one count per step, no other way out
+    # (segment scores are differences to the predecessor entry, so they sum to the path score only if every
+    # entry of the path is a segment - null entries before the first frame included)
+    from .. import symx as _sx
+    cl = [l_ for l_ in f.find("While") + f.find("For") + f.find("Do") if any(s_["node"] in set(f.walk(l_)) for s_ in nh if s_["op"] != "=")]
+    okc, whyc = len(cl) == 1, "counting loop not found"
+    if okc:
+        cnd = f.ch(cl[0])[1] if f.k(cl[0]) == "For" else f.ch(cl[0])[0]
+        rr = paths.rel(f, cnd, True, subst=False)
+        if rr is None or (rr[0], rr[1]) != ("0", "<"):
+            okc, whyc = False, "the walk does not run while the entry index is positive (%s)" % (rr,)
+        else:
+            bpv = rr[2]
+            for pt in _sx.loop_paths(f, cl[0], P):
+                if pt.end != "next":
+                    okc, whyc = False, "the walk can stop before the first entry of the path (%s)" % ", ".join("%s%s" % ("" if v_ else "not ", " ".join(k_)) for k_, v_ in pt.atoms.items())
+                elif lin.p_str(pt.get(bpv)) != "fsg_history_entry_get(fsgs->history, %s)->pred" % bpv and "pred" not in lin.p_str(pt.get(bpv)):
+                    okc, whyc = False, "the walk does not step to the predecessor (%s)" % lin.p_str(pt.get(bpv))
+    ctx.check(s6, okc, key(f, "whole-path"), f.where(cl[0]) if cl else f.where(f.root), "counting the segments: %s - entries left out are paid for by the first segment kept but reported by none, so the segment scores no longer sum to the path score" % whyc)
     first = f.calls("fsg_seg_bp2itor")
     ctx.check(s6, len(first) == 1 and f.canon(f.args(first[0])[1], subst=False) == "itor->hist[0]", key(f, "first"), f.where(f.root), "first segment is not hist[0]")
     al = [s for s in paths.field_stores(f, "fsg_seg_s", "hist")]
